@@ -89,6 +89,9 @@ STRENGTHEN = {
  "C11-r7m1": "direction axes stored in no particular order (shuffled) for the Funwave writer in C11",
  "C11-r7m2": "the written WW3 file is loaded into memory with plain xarray and converted twice with from_ww3: both conversions and the native dataset afterwards must agree (C11)",
  "C13-r7m1": "paths that first held other files of the format (one case in three) and an Obscape file rewritten in place must be read as they are now (C13)",
+ "C07-r8m1": "the second dataset of the concurrent watershed test has the SAME bin count on the transposed grid shape in half the cases, and each in-memory reference is computed after a native call on another bin count (C07)",
+ "C18-r8m2": "station datasets: a selection made after another selection (query in the other longitude convention, matches east of 180, consecutive stations) must equal the same selection on a freshly built dataset, and the stations / statistics afterwards too (C18)",
+ "C20-r8m1": "ordinary spectra held by dask with both spectral dimensions split into chunks must not raise (C20); the regenerated rechunk plan of every apply_ufunc restated as C20 obligations (Props/C20dask.lean)",
  "C20-m1": "whole-map timeout in pmap: a hang inside native code is reported as a termination failure and the native sub-check still runs (C20)",
 }
 MANUAL_LATER = {  # re-runs done directly with tools/seeded.py (not in a batch log)
